@@ -5,6 +5,9 @@
   python tools/rename_probe.py classes     every private class `_Name` -> `_NameRn`
   python tools/rename_probe.py attributes  every private attribute / field `self._x`, `_x: T` in a class body -> `_x_rn`
   python tools/rename_probe.py all         the four together
+  python tools/rename_probe.py sink        a new public function using every statement / expression form of Python 3.12 (selftest/fixtures/
+                                           kitchen_sink.py.txt) appended to every module a property is anchored in: code the checks have never
+                                           seen must not break them
   python tools/rename_probe.py params      every parameter of every private function / method `p` -> `p_rn`, with the keyword
                                            arguments at their call sites (syntax-tree rewrite; comments are lost in the scratch tree)
   options:  --keep  leave the scratch tree in place;  --only C04,C11  run only these checks
@@ -204,7 +207,19 @@ def main():
         raise SystemExit(r.stderr)
     # the working tree of /repo (uncommitted hooks etc.) is what the checks see: copy it over
     sh(f'git -C /repo diff HEAD | git -C {wt} apply --allow-empty', timeout=120)
-    if what == 'params':
+    if what == 'sink':
+        sink = open(os.path.join(VERIF, 'selftest', 'fixtures', 'kitchen_sink.py.txt'), encoding='utf-8').read()
+        files = set()
+        for line in open(os.path.join(VERIF, 'properties.jsonl'), encoding='utf-8'):
+            d = json.loads(line)
+            files.update(f for f in (d.get('anchors') or d.get('code_anchors') or {}).get('files', []) if f.endswith('.py'))
+        for f in sorted(files):
+            p = os.path.join(wt, f)
+            out = open(p, encoding='utf-8').read() + sink
+            ast.parse(out)
+            open(p, 'w', encoding='utf-8').write(out)
+        print(f'appended the syntax sink to {len(files)} modules')
+    elif what == 'params':
         n = rename_params(wt)
         print(f'renamed {n} parameters of private functions')
     else:
